@@ -345,7 +345,7 @@ impl Node {
 //@ name: maybe_change_value_manual
 //@ as: fn maybe_change_value_manual(&mut self, old_value_opt: Option<&OpaqueKind>, did_change: bool, run_child_changed: bool, state: &State) -> (r: Option<NodeRef>)
 //@ cells: changed_at
-//@ cut_after: self.maybe_handle_after_stabilisation(state)
+//@ cut_before: let parents = 
 //@ props: C06 C09
 //@ contract:
 //@|     ensures
@@ -353,6 +353,21 @@ impl Node {
 //@|         final(self).recomputed_at == old(self).recomputed_at && final(self).is_valid == old(self).is_valid, // [frame]
 //@|     // only the prefix up to queueing the node for its handlers is under contract; that the stamp is left alone when
 //@|     // !did_change rests on frame/changed_at-written-only-on-change-or-invalidation (a single writer in this function)
+//@end
+
+//@extract fn Node::maybe_change_value_manual@prefix!must_queue
+//@ file: src/node.rs
+//@ impl: impl Node
+//@ name: maybe_change_value_manual
+//@ as: fn maybe_change_value_manual__a_changed_node_is_queued_for_its_handlers(&mut self, old_value_opt: Option<&OpaqueKind>, did_change: bool, run_child_changed: bool, state: &State) -> (r: Option<NodeRef>)
+//@ cells: changed_at
+//@ cut_before: let parents = 
+//@ panics: diverge
+//@ rule R8: `self.maybe_handle_after_stabilisation(state);` => `vx_diverge();` x*
+//@ props: C09
+//@ contract:
+//@|     requires did_change,
+//@|     ensures false, // [whichever-recompute-path-reports-a-change-the-node-is-queued-for-its-update-handlers]
 //@end
 
 //@extract fn Node::invalidate_node
